@@ -86,7 +86,7 @@ func c04Templates() []c04Tmpl {
 		T = append(T, c04Tmpl{name: "binary" + op, types: []string{"int", "int"}, plain: ints(17, 5),
 			body: func(o []Expr) []Stmt { return setR(Binary{Op: op, L: o[0], R: o[1]}) }})
 	}
-	for _, op := range []string{"<", "=="} {
+	for _, op := range []string{"<", "==", ">", ">=", "<=", "!="} {
 		op := op
 		T = append(T, c04Tmpl{name: "compare-int" + op, types: []string{"int", "int"}, plain: ints(3, 4),
 			body: func(o []Expr) []Stmt { return setB(Binary{Op: op, L: o[0], R: o[1]}) }})
@@ -393,7 +393,7 @@ func C04() int {
 	{ // bind the interpreter's evaluation order to the Go toolchain for the statement kinds whose Go meaning
 		// is the same (no growing slice writes, no string subscripts (Go yields bytes), no file builtins, and no
 		// tracer inside && / || / a condition chain / case expressions, which TypeShell evaluates eagerly by design)
-		goSame := map[string]bool{"binary+": true, "binary-": true, "binary*": true, "binary/": true, "binary%": true, "compare-int<": true, "compare-int==": true,
+		goSame := map[string]bool{"binary+": true, "binary-": true, "binary*": true, "binary/": true, "binary%": true, "compare-int<": true, "compare-int==": true, "compare-int>": true, "compare-int>=": true, "compare-int<=": true, "compare-int!=": true,
 			"compare-string": true, "compare-bool": true, "not": true, "nested-arith": true, "grouped-arith": true, "left-assoc-sub": true, "call-args": true,
 			"call-stmt-args": true, "nested-calls": true, "slice-read-index": true, "slice-read-two": true, "slice-literal": true, "print-args": true, "return-values": true,
 			"define-multi": true, "define-var-typed": true, "assign-multi": true, "compound-assign": true, "for-header": true, "for-header-continue": true,
